@@ -65,3 +65,10 @@ From PFL Require Import Proofs.GenTieC05b.
 Theorem C05_to_cfg_rules_from_source : forall (r : re) (cur : rvar) (c : nat), re_prods r cur c = re_prods_src r cur c.
 Proof. exact re_prods_from_source. Qed.
 Print Assumptions C05_to_cfg_rules_from_source.
+
+(* Regex.accepts as pyformlang computes it: compile with to_epsilon_nfa (the counter-based construction), then run the
+   epsilon-NFA acceptance loop — composition of the two proved models *)
+From PFL Require Import Model.Enfa Proofs.Rational.
+Theorem C05_accepts_code_path : forall (c : nat) (r : re) (w : list N), accepts (re_enfa_at c r) w = true <-> den r w.
+Proof. exact re_enfa_accepts. Qed.
+Print Assumptions C05_accepts_code_path.
